@@ -255,8 +255,12 @@ static int json_patch_apply_move_copy(struct json_object **res,
 			}
 			return 0;
 		}
-		_set_err(EINVAL, "Invalid attempt to move parent under a child");
-		return -1;
+		/* Copying a value into one of its children is fine: only "move" is restricted */
+		if (move)
+		{
+			_set_err(EINVAL, "Invalid attempt to move parent under a child");
+			return -1;
+		}
 	}
 
 	rc = json_pointer_get_internal(*res, from_s, &from);
@@ -266,7 +270,7 @@ static int json_patch_apply_move_copy(struct json_object **res,
 		return rc;
 	}
 
-	// Note: it's impossible for json_pointer to find the root obj, due
+	// Note: for "move" it's impossible for json_pointer to find the root obj, due
 	// to the path check above, so from.parent is guaranteed non-NULL
 	if (!move) {
 		/* "copy" adds an independent copy of the value, not a second
